@@ -10,9 +10,12 @@ PROP = {
                    "reconnects with reload of both sides; 7 channel types x either opener; 1/3 of the cases with the revocation log "
                    "stored WITHOUT amount data). The engine records the fully signed commitment each party held at every height. "
                    "Then each party is the victim once: its database is copied and reloaded, and for EVERY height of the peer it "
-                   "holds a revocation for: (1) the state hint decoded from the real revoked tx (obfuscator derived as "
-                   "newChainWatcher does) equals the height and the retribution names that txid; (2) NewBreachRetribution succeeds "
-                   "with the breach tx and with nil (ErrRevLogDataMissing accepted only for nil + no amount data); (3) every recorded "
+                   "holds a revocation for: (1) the state hint decoded from the real revoked tx equals the height and the victim's REAL "
+                   "chain watcher (newChainWatcher on the reloaded state; the steps of handleCommitSpend: newChainSet, "
+                   "extractStateNumHint with its own obfuscator, handleKnownLocalState, handleKnownRemoteState -> "
+                   "handlePossibleBreach -> dispatchContractBreach) hands exactly one retribution for that height and txid to the "
+                   "contractBreach callback; that retribution is the one judged below; (2) NewBreachRetribution also succeeds "
+                   "with nil instead of the breach tx (ErrRevLogDataMissing accepted only for nil + no amount data); (3) every recorded "
                    "outpoint/pkScript/amount equals the real output of the revoked tx, no output is recorded twice and every output "
                    "except the <=2 anchors (scripts re-derived in the harness for non-taproot) is recorded; (4) the real "
                    "newRetributionInfo (1/3 through a real RetributionStore Add/ForAll round trip incl. the taproot briefcase) and "
@@ -45,6 +48,13 @@ PROP = {
         "files": ["contractcourt/c04_test.go"], "exports": {"lnwallet": E1X},
         "shards": {"quick": 8, "thorough": 16},
         "watchdog": {"quick": 1200, "thorough": 7200},
-        "floors": {},
+        "floors": {"quick": {"nontrivial": 150, "revoked_states_with_htlc_outputs": 2000,
+                             "oracle_watcher_dispatch_evals": 2500, "oracle_recorded_outputs_evals": 4000,
+                             "oracle_justice_inputs": 40000, "oracle_second_level_inputs": 2000,
+                             "second_level_states": 600, "store_roundtrips": 1500, "negctl_evals": 1500,
+                             "noamt_cases": 50, "reconnects": 250},
+                   "thorough": {"nontrivial": 5000, "revoked_states_with_htlc_outputs": 60000,
+                                "oracle_justice_inputs": 1200000, "oracle_second_level_inputs": 60000,
+                                "negctl_evals": 50000}},
     }],
 }
